@@ -15,6 +15,9 @@ TRUSTED_BASE = [
     "histories: the reference mean uses numpy eigenspectra of the implementation's tapers and, for 'adapt', the weights pmtm "
     "returns for the current configuration (those are tied to Thomson's formula by the 'pmtm' cases); the layouts other than the "
     "default one follow C06's conversion rule; the Lean model is run on the configuration the history ends with",
+    "kind 'tapers': the matrices come from spectrum.dpss, scipy.signal.windows.dpss and numpy's QR / normal deviates; the only "
+    "thing taken from them is a real N x k matrix with unit-energy columns (nothing is assumed about the Slepian property); the "
+    "reference eigenspectra are numpy.fft of column*data; tolerances as for 'pmtm' (measured values in oracle_tapers)",
     "records of 1000 and 1024 samples are checked by the oracle only (numpy reference of the iteration); the Lean model is "
     "executed up to 777 samples",
 ]
@@ -24,7 +27,12 @@ PARTIAL = ["'the spectrum the iteration converged to': the theorem is about the 
            "fewer than 100 passes, and the cap of exactly 100 passes on a pure tone of 1024 samples",
            "wide bands (NW >= 6, leading eigenvalue 1 to rounding, possibly 1 + 4e-16) are run on data whose spectrum stays above "
            "1e-6 of the mean power at every frequency (noise, noisy tone, trend, integers); on a constant record the bound "
-           "[0, 1/eigenvalue] is exceeded (see the PENDING-FINDING in gen)"]
+           "[0, 1/eigenvalue] is exceeded (see the PENDING-FINDING in gen)",
+           "kind 'tapers', method 'adapt': two input classes are left out pending a ruling (PENDING-FINDING in _gen_tapers, "
+           "reproducers in /tmp/finding_C19.py): tapers from spectrum.dpss with k so far above 2NW that dpss returns a "
+           "concentration ratio <= 0 (about -1e-16: the interval [0, 1/eigenvalue] is empty), and records whose energy the first "
+           "two tapers miss (sum_f (S_0+S_1)/2 <= 0.0005 * mean power: the adaptive loop makes no pass and returns the start "
+           "weights)"]
 ASSUMPTIONS = ["k >= 2 tapers for method='adapt' (the code's initial estimate averages the first two eigenspectra)",
                "MultiTapering.NW/k/method/e/v are plain attributes: assigning them does not invalidate a cached psd; the "
                "'reuse' and 'history' oracles re-run the instance explicitly (p() / p.run()) after such an assignment and nothing "
@@ -34,7 +42,11 @@ ASSUMPTIONS = ["k >= 2 tapers for method='adapt' (the code's initial estimate av
                "of the length they were computed for; complex data shown 'onesided' is not in the domain (the assignment is "
                "refused once a psd exists -- the history goes on and the object must still be right); the non-default layouts "
                "are those of C06 (interior one-sided values split equally between +f and -f, DC and Nyquist values kept); "
-               "scale_by_freq multiplies by 2*pi/df with df = sampling/NFFT as documented"]
+               "scale_by_freq multiplies by 2*pi/df with df = sampling/NFFT as documented",
+               "supplied tapers (e=, v=): v is a real N x k numpy matrix with one taper per COLUMN (the documented layout of dpss; "
+               "any memory layout) and unit-energy columns, e a numpy vector of k numbers in (0, 1] for 'adapt' (any real numbers "
+               "for 'unity' / 'eigen'); k may equal or exceed the number of samples; a k x N matrix (one taper per row) is not an "
+               "input of the property"]
 RULE = ("real/complex data (noise, tones, constant, trend, integer-valued, integer dtype, complex with zero imaginary part, "
         "lists, wide dynamic range) of length 16..128 (512 in thorough; 600 in the defaults family; 777, 1000, 1024 in thorough) "
         "x NW in {0.5, 0.75, 1 .. 4, 6 .. 8} (float and int) x k in 1..2NW and above 2NW x NFFT >= N (even/odd) and the default "
@@ -50,7 +62,21 @@ RULE = ("real/complex data (noise, tones, constant, trend, integer-valued, integ
         "len(frequencies()), psd real / finite / non-negative and equal (1e-9 max-norm and per bin) to the folded, doubled mean "
         "of weight*|eigenspectrum|^2 of the CURRENT data and configuration carried to the frequencies of the layout the object "
         "reports; get_converted_psd likewise; the Sk / weights / eigenvalues attributes equal pmtm's triple for the current "
-        "configuration; the psd the history ends with is compared with the Lean model of pmtm + class mean")
+        "configuration; the psd the history ends with is compared with the Lean model of pmtm + class mean; "
+        "caller-supplied tapers whose shape does not tell their layout (kind 'tapers'): N in 16..24 (quick: 16 and three others "
+        "chosen by the seed; thorough: all of them and 31, 32, 33, 40), the N x k matrix handed to pmtm(e=, v=) and "
+        "MultiTapering(e=, v=) SQUARE or nearly so -- explicit k = N, N-1, N+1 (thorough: also N-2, N+2) and the default "
+        "k = min(round(2NW), N) with NW within 1/2 of its bound N/2 (k = N or N-1) -- x NFFT in {N, N+1, 2N, 2N-1} so that "
+        "NFFT = N, NFFT = k and NFFT = N = k all occur x three methods x real/complex data (noise, tone, trend, integers, integer "
+        "dtype, zero imaginary part, list, constant, wide dynamic range) x the source of the tapers: spectrum.dpss(N, NW, k) "
+        "itself (then also: same triple / same class PSD as when pmtm computes them), scipy.signal.windows.dpss transposed to "
+        "N x k with its own concentration ratios (made-up 'eigenvalues' in (0, 1] when a ratio is not positive), k columns of a "
+        "random orthogonal matrix, and (k > N) unit-energy columns that are not orthogonal, both with made-up eigenvalues in "
+        "(0, 1] in no particular order x the memory layout of the matrix object (C-ordered, Fortran-ordered as scipy's "
+        "transposed result is, every other column / row of a larger array).  Checked: eigenspectrum j is the NFFT-point DFT of "
+        "(COLUMN j)*data, the eigenvalues come back unchanged, weights per method (Thomson's formula and the reference iteration "
+        "for 'adapt'), the class PSD is the folded mean of weight*|DFT(column*data)|^2 (max-norm and per bin), the caller's "
+        "arrays are untouched; every case is also run through the Lean model, which takes the tapers as given")
 
 
 def _sp():
@@ -123,6 +149,66 @@ def _thomson_ref(SkA, e, sig2, nfft, cap=100):
     return n, w.T
 
 
+def _adapt_checks(p, x, N, nfft, v, e, k, Sk, w, out):
+    """the clauses on the adaptive weights (shape, real, [0, 1/eigenvalue], Thomson's formula at one spectrum per frequency,
+    the numpy reference of the iteration, the acceptance rule), for tapers v (N x k, unit energy) with eigenvalues e"""
+    if w.shape != (nfft, k):
+        out.append("adaptive weights have shape %s, expected (%d, %d)" % (w.shape, nfft, k))
+    elif np.iscomplexobj(w) or not np.all(np.isfinite(w)):
+        out.append("adaptive weights are not real and finite (%s data)" % ("complex" if np.iscomplexobj(x) else "real"))
+    else:
+        if np.any(w < -1e-12) or np.any(w > 1.0 / e[None, :] * (1 + 1e-9)):
+            out.append("adaptive weights leave [0, 1/eigenvalue]")
+        # Thomson's formula evaluated at ONE spectrum per frequency: w_k = lam_k b_k^2 with b_k = S/(lam_k S + sig2 (1-lam_k)).
+        # Recover S from taper 0 and require that the same S reproduces every other taper's weight (no convergence assumed;
+        # the iteration stops on a tolerance, so "the spectrum it converged to" is whatever it last evaluated).
+        sig2 = float(np.sum(np.abs(x) ** 2) / N)
+        a = sig2 * (1 - np.minimum(e, 1.0))
+        b0 = np.sqrt(np.clip(w[:, 0] / e[0], 0, None))
+        den = 1 - b0 * e[0]
+        ok = den > 1e-9
+        Srec = np.where(ok, b0 * a[0] / np.where(ok, den, 1), np.nan)
+        wf = (Srec[:, None] / (Srec[:, None] * e[None, :] + a[None, :])) ** 2 * e[None, :]
+        dev = np.abs(wf - w)[ok]
+        if dev.size and np.max(dev) > 1e-6 * max(1.0, float(np.max(np.abs(w)))):
+            out.append("adaptive weights are not Thomson's formula at a single spectrum per frequency: max dev %.3e" % np.max(dev))
+        # the same, with S recovered from the LEAST concentrated taper (largest 1 - lambda): b_j = S/(lam_j S + a_j) gives
+        # S = b_j a_j / (1 - b_j lam_j) and 1 - b_j lam_j = a_j/(lam_j S + a_j) >= (1 - lam_j)/(lam_j N + 1 - lam_j), because
+        # every eigenspectrum (hence S) is at most N * sig2 (Cauchy-Schwarz, unit-energy tapers): the recovery is active at
+        # EVERY frequency as soon as lam_j <= 0.999, however close to 1 the leading eigenvalues are
+        j = int(np.argmin(e))
+        bj = np.sqrt(np.clip(w[:, j] / e[j], 0, None))
+        denj = 1 - bj * e[j]
+        okj = denj > 1e-9
+        if e[j] <= 0.999 and not np.all(okj):
+            out.append("the weight of the least concentrated taper (eigenvalue %.6f) reaches 1/eigenvalue: no finite "
+                       "spectrum gives it" % e[j])
+        Sj = np.where(okj, bj * a[j] / np.where(okj, denj, 1), np.nan)
+        wfj = (Sj[:, None] / (Sj[:, None] * e[None, :] + a[None, :])) ** 2 * e[None, :]
+        devj = np.abs(wfj - w)[okj]
+        if devj.size and np.max(devj) > 1e-9 * max(1.0, float(np.max(np.abs(w)))):
+            out.append("adaptive weights are not Thomson's formula at a single spectrum per frequency (spectrum recovered "
+                       "from taper %d of %d, N=%d NW=%s): max dev %.3e" % (j, k, N, p["NW"], np.max(devj)))
+        # "the spectrum the iteration converged to": the numpy iteration above, from the eigenspectra as numpy computes them
+        SkR = np.abs(np.array([np.fft.fft(v[:, i] * x, nfft) for i in range(k)])) ** 2
+        npass, wref = _thomson_ref(SkR, e, sig2, nfft)
+        if np.all(np.isfinite(wref)) and np.max(np.abs(wref - w)) > 1e-6 * max(1.0, float(np.max(np.abs(wref)))):
+            out.append("adaptive weights differ from Thomson's iteration (numpy reference, %d passes, N=%d NFFT=%d): %.3e" % (
+                npass, N, nfft, np.max(np.abs(wref - w))))
+        if "expect_passes" in p and not str(p.get("variant", "")).startswith("degen") and npass != p["expect_passes"]:
+            out.append("harness: the reference iteration takes %d passes on this record, expected %d" % (npass, p["expect_passes"]))
+        if npass < 100 and np.all(okj):
+            # accepted before the cap: the returned weights sit at a spectrum S with sum_f |T(S) - S| <= 0.0005 sig2, T(S) the
+            # weighted mean of the eigenspectra under the weights at S.  S comes from the weights with relative error about
+            # eps * (1 + lam_j S / a_j); that error is added to the allowance.
+            Snew = np.sum(w * (np.abs(Sk) ** 2).T, axis=1) / np.sum(w, axis=1)
+            slack = float(np.sum(Sj * 64 * np.finfo(float).eps * (1 + e[j] * Sj / a[j])))
+            if np.sum(np.abs(Snew - Sj)) > 0.0005 * sig2 * (1 + 1e-9) + slack:
+                out.append("the spectrum behind the adaptive weights is not a fixed point to the acceptance tolerance: "
+                           "sum|T(S)-S| = %.3e > 0.0005*sig2 = %.3e (reference iteration stops after %d passes)" % (
+                               np.sum(np.abs(Snew - Sj)), 0.0005 * sig2, npass))
+
+
 def oracle_pmtm(p):
     sp = _sp()
     x = np.asarray(p["x"])
@@ -152,61 +238,7 @@ def oracle_pmtm(p):
         if w.shape != exp.shape or rel(w, exp) > 1e-12:
             out.append("eigen weights are not eigenvalue/(index+1)")
     else:
-        if w.shape != (nfft, k):
-            out.append("adaptive weights have shape %s, expected (%d, %d)" % (w.shape, nfft, k))
-        elif np.iscomplexobj(w) or not np.all(np.isfinite(w)):
-            out.append("adaptive weights are not real and finite (%s data)" % ("complex" if np.iscomplexobj(x) else "real"))
-        else:
-            if np.any(w < -1e-12) or np.any(w > 1.0 / e[None, :] * (1 + 1e-9)):
-                out.append("adaptive weights leave [0, 1/eigenvalue]")
-            # Thomson's formula evaluated at ONE spectrum per frequency: w_k = lam_k b_k^2 with b_k = S/(lam_k S + sig2 (1-lam_k)).
-            # Recover S from taper 0 and require that the same S reproduces every other taper's weight (no convergence assumed;
-            # the iteration stops on a tolerance, so "the spectrum it converged to" is whatever it last evaluated).
-            sig2 = float(np.sum(np.abs(x) ** 2) / N)
-            a = sig2 * (1 - np.minimum(e, 1.0))
-            b0 = np.sqrt(np.clip(w[:, 0] / e[0], 0, None))
-            den = 1 - b0 * e[0]
-            ok = den > 1e-9
-            Srec = np.where(ok, b0 * a[0] / np.where(ok, den, 1), np.nan)
-            wf = (Srec[:, None] / (Srec[:, None] * e[None, :] + a[None, :])) ** 2 * e[None, :]
-            dev = np.abs(wf - w)[ok]
-            if dev.size and np.max(dev) > 1e-6 * max(1.0, float(np.max(np.abs(w)))):
-                out.append("adaptive weights are not Thomson's formula at a single spectrum per frequency: max dev %.3e" % np.max(dev))
-            # the same, with S recovered from the LEAST concentrated taper (largest 1 - lambda): b_j = S/(lam_j S + a_j) gives
-            # S = b_j a_j / (1 - b_j lam_j) and 1 - b_j lam_j = a_j/(lam_j S + a_j) >= (1 - lam_j)/(lam_j N + 1 - lam_j), because
-            # every eigenspectrum (hence S) is at most N * sig2 (Cauchy-Schwarz, unit-energy tapers): the recovery is active at
-            # EVERY frequency as soon as lam_j <= 0.999, however close to 1 the leading eigenvalues are
-            j = int(np.argmin(e))
-            bj = np.sqrt(np.clip(w[:, j] / e[j], 0, None))
-            denj = 1 - bj * e[j]
-            okj = denj > 1e-9
-            if e[j] <= 0.999 and not np.all(okj):
-                out.append("the weight of the least concentrated taper (eigenvalue %.6f) reaches 1/eigenvalue: no finite "
-                           "spectrum gives it" % e[j])
-            Sj = np.where(okj, bj * a[j] / np.where(okj, denj, 1), np.nan)
-            wfj = (Sj[:, None] / (Sj[:, None] * e[None, :] + a[None, :])) ** 2 * e[None, :]
-            devj = np.abs(wfj - w)[okj]
-            if devj.size and np.max(devj) > 1e-9 * max(1.0, float(np.max(np.abs(w)))):
-                out.append("adaptive weights are not Thomson's formula at a single spectrum per frequency (spectrum recovered "
-                           "from taper %d of %d, N=%d NW=%s): max dev %.3e" % (j, k, N, p["NW"], np.max(devj)))
-            # "the spectrum the iteration converged to": the numpy iteration above, from the eigenspectra as numpy computes them
-            SkR = np.abs(np.array([np.fft.fft(v[:, i] * x, nfft) for i in range(k)])) ** 2
-            npass, wref = _thomson_ref(SkR, e, sig2, nfft)
-            if np.all(np.isfinite(wref)) and np.max(np.abs(wref - w)) > 1e-6 * max(1.0, float(np.max(np.abs(wref)))):
-                out.append("adaptive weights differ from Thomson's iteration (numpy reference, %d passes, N=%d NFFT=%d): %.3e" % (
-                    npass, N, nfft, np.max(np.abs(wref - w))))
-            if "expect_passes" in p and not str(p.get("variant", "")).startswith("degen") and npass != p["expect_passes"]:
-                out.append("harness: the reference iteration takes %d passes on this record, expected %d" % (npass, p["expect_passes"]))
-            if npass < 100 and np.all(okj):
-                # accepted before the cap: the returned weights sit at a spectrum S with sum_f |T(S) - S| <= 0.0005 sig2, T(S) the
-                # weighted mean of the eigenspectra under the weights at S.  S comes from the weights with relative error about
-                # eps * (1 + lam_j S / a_j); that error is added to the allowance.
-                Snew = np.sum(w * (np.abs(Sk) ** 2).T, axis=1) / np.sum(w, axis=1)
-                slack = float(np.sum(Sj * 64 * np.finfo(float).eps * (1 + e[j] * Sj / a[j])))
-                if np.sum(np.abs(Snew - Sj)) > 0.0005 * sig2 * (1 + 1e-9) + slack:
-                    out.append("the spectrum behind the adaptive weights is not a fixed point to the acceptance tolerance: "
-                               "sum|T(S)-S| = %.3e > 0.0005*sig2 = %.3e (reference iteration stops after %d passes)" % (
-                                   np.sum(np.abs(Snew - Sj)), 0.0005 * sig2, npass))
+        _adapt_checks(p, x, N, nfft, v, e, k, Sk, w, out)
     # class: mean over tapers of weight*|eigenspectrum|^2, folded for real data, real and non-negative
     P = sp.MultiTapering(p["x"], NW=p["NW"], k=p["k"], NFFT=nfft, method=p["method"], scale_by_freq=False)
     psd = np.asarray(P.psd)
@@ -250,6 +282,149 @@ def oracle_pmtm(p):
     if (_snapshot(p["x"]), _snapshot(v), _snapshot(e)) != snap:
         out.append("pmtm / MultiTapering modified the caller's data, tapers or eigenvalues")
     return out
+
+
+# --------------------------------------------------------------------------------------------------
+# caller-supplied tapers whose SHAPE says nothing about their layout: square (k = N) and nearly square (k = N-1, N+1) matrices,
+# NFFT = N, NFFT = k.  The clauses "eigenspectrum j = NFFT-point DFT of (taper j)*data", the weight formulas and the class mean
+# hold for ANY real taper matrix the caller supplies in the documented layout (N x k, one taper per COLUMN).
+
+_TLAYOUTS = ["C", "F", "cols", "rows"]
+
+
+def _given(p):
+    """what the caller hands over: an N x k matrix, one taper per COLUMN, and k eigenvalues.  source 'spectrum': dpss(N, NW, k)
+    of the implementation (recomputed from N, NW, k); any other source: the matrix and the eigenvalues carried by the case.
+    'vlayout' is the memory layout of the matrix object (same values, same shape): C-ordered; Fortran-ordered (what the
+    transposed k x N result of scipy.signal.windows.dpss is); every other column / row of a larger array (strided view)"""
+    N = len(np.asarray(p["x"]))
+    if p["source"] == "spectrum":
+        v, e = _tapers(N, p["NW"], p["k"])
+    else:
+        v, e = p["v"], p["e"]
+    v = np.array(v, dtype=float, order="C")
+    e = np.array(e, dtype=float)
+    lay = p.get("vlayout", "C")
+    if lay == "F":
+        v = np.asfortranarray(v)
+    elif lay == "cols":
+        big = np.full((v.shape[0], 2 * v.shape[1]), 7.0)
+        big[:, ::2] = v
+        v = big[:, ::2]
+    elif lay == "rows":
+        big = np.full((2 * v.shape[0], v.shape[1]), 7.0)
+        big[::2] = v
+        v = big[::2]
+    elif lay != "C":
+        raise ValueError("harness: unknown taper layout %r" % (lay,))
+    return v, e
+
+
+def _fold(mean, real, nfft):
+    return 2 * mean[:(nfft // 2 + 1 if nfft % 2 == 0 else (nfft + 1) // 2)] if real else mean
+
+
+def oracle_tapers(p):
+    """caller-supplied tapers: every clause of the statement with the tapers taken as the COLUMNS of the caller's N x k matrix.
+    Tolerances as for the 'pmtm' kind: 1e-9 on eigenspectra and the class PSD (max-norm and per bin), 1e-12 on eigenvalues, eigen
+    weights and supplied-vs-computed; adaptive weights through _adapt_checks.  Measured on the unchanged code over the
+    thorough-tier cases of this kind, variants included, seeds 0..7 (13 479 cases): eigenspectra, eigenvalues, eigen weights and
+    pmtm supplied-vs-computed 0.0 (bit-identical: the same numpy operations); class PSD against the column-wise mean 1.04e-15
+    max-norm, 1.09e-15 per bin; class (NW, k) against class (e, v) 1.04e-15 (the summation order follows the memory layout of
+    the matrix) -- the limits are >= 900 x the worst observed.  Model comparison (rtol 1e-6 max-norm per output, atol 1e-12, as
+    for 'pmtm'): worst 1.35e-8 over 3 000 cases (adaptive weights on CONSTANT records with 16..20 tapers; 4e-11 on every other
+    kind of data), 74 x below the limit"""
+    sp = _sp()
+    x = np.asarray(p["x"])
+    N = len(x)
+    nfft = p["nfft"]
+    m = p["method"]
+    v, e = _given(p)
+    if v.ndim != 2 or v.shape[0] != N or e.shape != (v.shape[1],):
+        return ["harness: the case carries tapers of shape %s and %s eigenvalues for %d samples" % (v.shape, e.shape, N)]
+    k = v.shape[1]
+    real = np.isrealobj(x)
+    desc = "N=%d k=%d NFFT=%d, %s data, method %s, tapers: %s, %s-layout" % (
+        N, k, nfft, "real" if real else "complex", m, p["source"], p.get("vlayout", "C"))
+    out = []
+    snap = (_snapshot(p["x"]), _snapshot(v), _snapshot(e))
+    ref = np.array([np.fft.fft(v[:, j] * x, nfft) for j in range(k)])          # column j, by definition of the N x k layout
+    Sk, w, ev = sp.pmtm(p["x"], e=e, v=v, NFFT=nfft, method=m, show=False)
+    Sk, w, ev = np.asarray(Sk), np.asarray(w), np.asarray(ev)
+    if Sk.shape != (k, nfft):
+        return ["supplied tapers: pmtm eigenspectra have shape %s, expected (%d, %d) (%s)" % (Sk.shape, k, nfft, desc)]
+    for j in range(k):
+        if rel(Sk[j], ref[j]) > 1e-9:
+            hint = ""
+            if k == N and all(rel(Sk[i], np.fft.fft(v[i, :] * x, nfft)) <= 1e-9 for i in range(k)):
+                hint = " -- it is the DFT of (ROW %d of the matrix)*data: the square N x k matrix was read as k x N" % j
+            out.append("supplied tapers: eigenspectrum %d is not the NFFT-point DFT of (column %d of v)*data: %.2e%s (%s)" % (
+                j, j, rel(Sk[j], ref[j]), hint, desc))
+            return out
+    if ev.shape != e.shape or rel(ev, e) > 1e-12:
+        out.append("supplied tapers: the returned eigenvalues are not the supplied ones (%s)" % desc)
+    if m == "unity":
+        if w.shape != (k, 1) or np.any(w != 1):
+            out.append("supplied tapers: unity weights are not all 1 (%s)" % desc)
+        W = np.ones((k, 1))
+    elif m == "eigen":
+        W = np.array([e[i] / (i + 1) for i in range(k)]).reshape(k, 1)
+        if w.shape != W.shape or rel(w, W) > 1e-12:
+            out.append("supplied tapers: eigen weights are not eigenvalue/(index+1) (%s)" % desc)
+    else:
+        n0 = len(out)
+        _adapt_checks(p, x, N, nfft, v, e, k, Sk, w, out)
+        out[n0:] = ["supplied tapers: %s (%s)" % (t, desc) for t in out[n0:]]
+        # the class mean below uses the weights pmtm returned (tied to Thomson's formula by the lines above)
+        W = w.T if (w.shape == (nfft, k) and not np.iscomplexobj(w) and np.all(np.isfinite(w))) else None
+    # the class: mean over tapers of weight*|eigenspectrum|^2 with the eigenspectra as numpy computes them from the COLUMNS
+    P = sp.MultiTapering(p["x"], e=e, v=v, NFFT=nfft, method=m, scale_by_freq=False)
+    psd = np.asarray(P.psd)
+    if np.iscomplexobj(psd) or not np.all(np.isfinite(psd)) or np.any(psd < 0):
+        out.append("supplied tapers: MultiTapering PSD is not real, finite and non-negative (%s)" % desc)
+    elif W is not None:
+        mean = _fold(np.mean(W * np.abs(ref) ** 2, axis=0), real, nfft)
+        if psd.shape != mean.shape or rel(psd, mean) > 1e-9:
+            out.append("supplied tapers: MultiTapering PSD is not the mean over tapers of weight*|DFT(column*data)|^2 (folded for "
+                       "real data): %.2e (%s)" % (rel(psd, mean), desc))
+        else:
+            big = mean > 1e-12 * np.max(mean)
+            if np.any(big) and np.max(np.abs(psd[big] - mean[big]) / mean[big]) > 1e-9:
+                out.append("supplied tapers: MultiTapering PSD differs bin-by-bin from the weighted mean: max relative deviation "
+                           "%.2e (%s)" % (np.max(np.abs(psd[big] - mean[big]) / mean[big]), desc))
+    # supplying the implementation's own tapers gives what pmtm / the class give when they compute them
+    if p["source"] == "spectrum":
+        Sk0, w0, ev0 = sp.pmtm(p["x"], NW=p["NW"], k=p["k"], NFFT=nfft, method=m, show=False)
+        if rel(np.asarray(Sk0), Sk) > 1e-12 or rel(np.asarray(w0, dtype=complex), w.astype(complex)) > 1e-12 \
+                or rel(np.asarray(ev0), ev) > 1e-12:
+            out.append("pmtm with supplied tapers differs from pmtm computing them (%s, NW=%s k=%s)" % (desc, p["NW"], p["k"]))
+        if not np.iscomplexobj(psd) and np.all(np.isfinite(psd)):
+            for label, kw in (("NW, k", {"NW": p["NW"], "k": p["k"]}), ("NW, k, e, v", {"NW": p["NW"], "k": p["k"], "e": e, "v": v})):
+                psd0 = np.asarray(sp.MultiTapering(p["x"], NFFT=nfft, method=m, scale_by_freq=False, **kw).psd)
+                if psd0.shape != psd.shape or rel(psd0, psd) > 1e-12:
+                    out.append("MultiTapering(e, v) with supplied tapers differs from MultiTapering(%s) (%s, NW=%s k=%s)" % (
+                        label, desc, p["NW"], p["k"]))
+                    break
+    if (_snapshot(p["x"]), _snapshot(v), _snapshot(e)) != snap:
+        out.append("pmtm / MultiTapering modified the caller's data, tapers or eigenvalues (%s)" % desc)
+    return out
+
+
+def impl_tapers(p):
+    sp = _sp()
+    v, e = _given(p)
+    Sk, w, ev = sp.pmtm(p["x"], e=e, v=v, NFFT=p["nfft"], method=p["method"], show=False)
+    P = sp.MultiTapering(p["x"], e=e, v=v, NFFT=p["nfft"], method=p["method"], scale_by_freq=False)
+    Sk = np.asarray(Sk)
+    return [Sk[i, :] for i in range(Sk.shape[0])] + [np.asarray(w).ravel(), np.asarray(P.psd)]
+
+
+def model_tapers(p):
+    """the Lean model takes the tapers as given: one vector per taper = one COLUMN of the caller's matrix"""
+    v, e = _given(p)
+    v = np.array(v, order="C")
+    return ("F", proto.request("mtm", "F", [p["method"], p["nfft"]],
+                               [np.asarray(p["x"]), e, [0.0005]] + [v[:, i].copy() for i in range(v.shape[1])]))
 
 
 def oracle_defaults(p):
@@ -699,6 +874,29 @@ def _hist_tags(p):
 KINDS["history"] = {"oracle": oracle_history, "impl": impl_history, "model": model_history, "post": post_history,
                     "rtol": 1e-6, "atol": 0.0,
                     "key": lambda p: "hist|%s|%s|%s|%s" % (p["ops"], p["sampling"], p["scale"], _key(p)), "tags": _hist_tags}
+def _tapers_tags(p):
+    x = np.asarray(p["x"])
+    N = len(x)
+    v, e = _given(p)
+    k = v.shape[1]
+    t = ["tapers", "tapers:" + ("complex" if np.iscomplexobj(x) else "real"), "tapers:method:" + p["method"],
+         "tapers:source:" + p["source"], "tapers:layout:" + p.get("vlayout", "C"), "tapers:data:" + p["dkind"],
+         "tapers:k=" + ("N" if k == N else "N-1" if k == N - 1 else "N+1" if k == N + 1 else "other")]
+    if p["nfft"] == N:
+        t.append("tapers:NFFT=N")
+    if p["nfft"] == k:
+        t.append("tapers:NFFT=k")
+    if p["nfft"] == N == k:
+        t.append("tapers:NFFT=N=k")
+    if p["source"] == "spectrum" and p["k"] is None:
+        t.append("tapers:default k, NW near N/2")
+    t.append("tapers:eigenvalues:" + p.get("eig", "dpss"))
+    return t
+
+
+KINDS["tapers"] = {"oracle": oracle_tapers, "impl": impl_tapers, "model": model_tapers, "post": post_pmtm, "rtol": 1e-6, "atol": 1e-12,
+                   "key": lambda p: "tapers|%s|%s|%s|%s" % (p["source"], p.get("vlayout", "C"), np.asarray(_given(p)[0]).shape, _key(p)),
+                   "tags": _tapers_tags}
 KINDS["single"] = single.kind("C19")
 
 # (N, NW, k, NFFT): more tapers than 2NW (small eigenvalues, large 1/eigenvalue), NW <= 1, integer-typed NW, 16 samples with 8 tapers
@@ -850,6 +1048,108 @@ def _gen_history(nrng, tier):
         yield ("history", p)
 
 
+# --------------------------------------------------------------------------------------------------
+# supplied tapers, square and nearly square
+
+_TKINDS = ["noise", "tone", "trend", "int", "intdtype", "czero", "list", "const", "dyn"]
+_TNW = [2.5, 4.0, 5, 3.0, 6.5, 7.0, 3.5, 6]
+
+
+def _made_up(nrng, k):
+    """'eigenvalues' for tapers that are not Slepian sequences: any numbers in (0, 1], in no particular order, the smallest
+    at most 0.9 (so that the recovery of the spectrum behind the adaptive weights is active), now and then one exactly 1"""
+    e = nrng.uniform(0.05, 1.0, k)
+    if nrng.integers(0, 2):
+        e[int(nrng.integers(0, k))] = 1.0
+    if np.min(e) > 0.9:
+        e[int(np.argmin(e))] = 0.5
+    return e
+
+
+def _no_pass(p):
+    """does the adaptive loop stop before its first pass on this case?  (Parseval: sum_f S_j = NFFT * sum_n v_j[n]^2 |x[n]|^2)"""
+    x = np.asarray(p["x"])
+    v, e = _given(p)
+    a2 = np.abs(x.astype(complex)) ** 2
+    s0 = p["nfft"] * float(np.sum((v[:, 0] ** 2 + v[:, 1] ** 2) / 2 * a2))
+    return s0 <= 0.0005 * float(np.sum(a2)) / len(x) * (1 + 1e-6)
+
+
+def _taper_source(nrng, source, N, NW, k):
+    """(params, eigenvalue tag) for one way of obtaining an N x k taper matrix in the documented one-taper-per-column layout"""
+    if source == "spectrum":
+        return {"source": "spectrum", "NW": NW, "k": k}, "dpss"
+    if source == "scipy":
+        # an independent construction of the same sequences; its natural result is k x N (one taper per ROW): the caller
+        # transposes it to the documented layout
+        from scipy.signal.windows import dpss as sdpss
+        kk = k if k is not None else int(max(min(round(2 * NW), N), 1))
+        w, r = sdpss(N, NW, kk, return_ratios=True)
+        v = np.ascontiguousarray(np.asarray(w).T)
+        r = np.asarray(r, dtype=float)
+        if np.min(r) > 0:
+            return {"source": "scipy", "NW": NW, "k": kk, "v": v, "e": r}, "ratios"
+        return {"source": "scipy", "NW": NW, "k": kk, "v": v, "e": _made_up(nrng, kk)}, "made-up"
+    if source == "orth":
+        # any orthonormal set: k columns of a random orthogonal matrix
+        q, _ = np.linalg.qr(nrng.standard_normal((N, N)))
+        return {"source": "orth", "NW": None, "k": k, "v": np.ascontiguousarray(q[:, :k]), "e": _made_up(nrng, k)}, "made-up"
+    # 'unit': unit-energy columns that are not orthogonal (the only possibility for more tapers than samples)
+    v = nrng.standard_normal((N, k))
+    v = v / np.sqrt(np.sum(v ** 2, axis=0))[None, :]
+    return {"source": "unit", "NW": None, "k": k, "v": v, "e": _made_up(nrng, k)}, "made-up"
+
+
+def _gen_tapers(nrng, tier):
+    thorough = tier != "quick"
+    if thorough:
+        Ns = list(range(16, 25)) + [31, 32, 33, 40]
+    else:
+        Ns = [16] + sorted(int(t) for t in nrng.choice(np.arange(17, 25), 3, replace=False))
+    r0 = int(nrng.integers(0, 12))
+    c = r0
+    methods = ("unity", "eigen", "adapt")
+
+    def case(N, NW, k, nfft, method, source):
+        nonlocal c
+        c += 1
+        cplx = bool((c // 2 + c // 7) % 2)
+        x, dk = gen_data(nrng, N, cplx, kind=_TKINDS[(c + c // 9) % len(_TKINDS)])
+        src, eig = _taper_source(nrng, source, N, NW, k)
+        p = {"x": _inp(x, dk, np.iscomplexobj(x)), "nfft": nfft, "method": method, "dkind": dk, "eig": eig,
+             "vlayout": _TLAYOUTS[(c + c // 4) % len(_TLAYOUTS)], "supplied": True}
+        p.update(src)
+        if method == "adapt" and _no_pass(p):
+            # PENDING-FINDING: when the first two tapers miss the record's energy (sum_f (S_0+S_1)/2 <= 0.0005 * mean power; here a
+            # wide-dynamic-range record whose dominant sample sits where tapers 0 and 1 vanish, NW near N/2) the adaptive loop
+            # makes no pass at all (its first comparison is against S1 = 0) and returns the start weights = eigenvalues, which
+            # fail the acceptance rule; also pmtm(impulse at sample 0, N=64, NW=4, k=8) (/tmp/finding_C19.py, F1)
+            x, dk = gen_data(nrng, N, cplx, kind="noise")
+            p.update(x=x, dkind=dk)
+        return ("tapers", p)
+
+    for ni, N in enumerate(Ns):
+        # (1) explicit k: as many tapers as samples, one fewer, one more; NFFT = N, N + 1, 2N (so NFFT = N = k, NFFT = k = N + 1 occur)
+        shapes = [(N, N), (N, N + 1), (N, 2 * N), (N - 1, N), (N - 1, 2 * N - 1), (N + 1, N + 1), (N + 1, 2 * N)]
+        if thorough:
+            shapes += [(N, N + 7), (N - 1, N + 1), (N + 1, N), (N - 2, N), (N + 2, N + 2)]
+        for si, (k, nfft) in enumerate(shapes):
+            for mi, method in enumerate(methods):
+                NW = [t for t in _TNW if t < N / 2.0][(si + mi + ni + r0) % len([t for t in _TNW if t < N / 2.0])]
+                source = "unit" if k > N else ("spectrum", "scipy", "orth")[(si + ni + mi + r0) % 3]
+                if source == "spectrum" and method == "adapt" and np.min(_tapers(N, NW, k)[1]) <= 0:
+                    # PENDING-FINDING: for k far above 2NW dpss returns a concentration ratio that is not positive (about -1e-16,
+                    # true value ~1e-25), e.g. dpss(16, 2.5, 16), dpss(20, 3, 20): the adaptive weight of that taper is
+                    # eigenvalue * b^2 <= 0 and the interval [0, 1/eigenvalue] is empty (/tmp/finding_C19.py)
+                    source = "scipy"
+                yield case(N, NW, k, nfft, method, source)
+        # (2) default k with NW within 1/2 of its upper bound N/2: k = min(round(2NW), N) is N or N - 1
+        for di, d in enumerate((0.25, 0.1, 0.4) if not thorough else (0.25, 0.1, 0.4, 0.01, 0.3, 0.49)):
+            for mi, method in enumerate(methods):
+                nfft = [N, 2 * N, N + 1, 2 * N + 1][(di + mi + ni + r0) % 4]
+                yield case(N, N / 2.0 - d, None, nfft, method, ("spectrum", "scipy")[(di + mi + ni + r0) % 3 == 2])
+
+
 def gen(rng, nrng, tier):
     yield from single.gen("C19", nrng, tier)
     thorough = tier != "quick"
@@ -935,3 +1235,5 @@ def gen(rng, nrng, tier):
                         "nfft": nfft, "method": methods[i % 3], "supplied": bool(i % 2), "dkind": dk})
     # operation histories on one object (last: the random streams of the cases above are as they were)
     yield from _gen_history(nrng, tier)
+    # supplied tapers whose shape does not tell their layout (after the histories: the streams above are as they were)
+    yield from _gen_tapers(nrng, tier)
